@@ -77,5 +77,15 @@ func curatedLexSpecs() []*LSpec {
 	// overlapping classes that must be split into pieces; a literal inside the overlap
 	out = append(out, finishSpec(&LMode{Rules: []*LRule{
 		tokRule(seq(cls(false, "", RRange{'a', 'm'}))), tokRule(seq(cls(false, "", RRange{'h', 'z'}), lit("!", ""))), tokRule(seq(lit("k", ""), lit("?", ""))), ws}}))
+	// more than 256 terminals: token numbers that differ by a multiple of 256 (row sharing keys, byte-sized
+	// encodings); leaf accepting states of the same mode differ in the token number only
+	{
+		var rules []*LRule
+		for i := 0; i < 300; i++ {
+			rules = append(rules, tokRule(seq(lit(fmt.Sprintf("k%03d", i), ""))))
+		}
+		rules = append(rules, ws)
+		out = append(out, finishSpec(&LMode{Rules: rules}))
+	}
 	return out
 }
